@@ -1,8 +1,8 @@
 (* Property C03 — swaps never reduce pool value; no sequence of swaps is profitable.
    Constant product: full proofs (Proofs/SwapProofs.v). Stableswap: see Props/C03ss.v (refutation of the
    literal statement with a witness, plus what is proved). Statements only. *)
-From MD.Model Require Import Base Ownable Epoch PoolMath Types PoolManager.
-From MD.Proofs Require Import PoolMathProofs SwapProofs.
+From MD.Model Require Import Base Ownable Epoch PoolMath Types PoolManager FarmManager Chain.
+From MD.Proofs Require Import PoolMathProofs SwapProofs PmWf.
 
 (* Every executed swap goes through perform_swap (direct swap, each router hop, the internal swap of a
    single-asset deposit). For EVERY pool of the state: type/fees/status unchanged and, for constant-product
@@ -54,8 +54,16 @@ Theorem C03_cp_arith : forall x y dx out,
   0 < x + dx -> 0 <= y -> 0 <= dx -> out <= y * dx / (x + dx) -> x * y <= (x + dx) * (y - out).
 Proof. exact MD.Proofs.Arith.cp_invariant. Qed.
 
+(* the well-formedness the swap theorems assume (pm_wf: non-negative fees and reserves, two assets in a constant-product
+   pool) is not an assumption about reachable states: it holds in every world reachable from genesis by any history,
+   because every pool-manager message preserves it *)
+Theorem C03_swap_theorems_apply_in_every_reachable_world : forall g w0 ops,
+  genesis_world g = Ok w0 -> pm_wf (w_pm (run w0 ops)).
+Proof. exact reachable_pm_wf. Qed.
+
 Print Assumptions C03_cp_swap_never_reduces_product.
 Print Assumptions C03_cp_route_never_reduces_product.
 Print Assumptions C03_cp_any_swap_sequence.
 Print Assumptions C03_cp_no_profitable_round_trip.
 Print Assumptions C03_cp_arith.
+Print Assumptions C03_swap_theorems_apply_in_every_reachable_world.
